@@ -284,7 +284,7 @@ func vC14RrRunInBubble(t *testing.T, c *vh.Case, sc vC14RrScn, target int) *vC14
 		select {
 		case o := <-ret:
 			if o.pv != nil {
-				c.FailSig("panic", "panic@rtrefresh.(*RtRefreshManager).Close", "%s%s panicked: %v (%s; closed at event #%d %q, %d Refresh callers pending)\n%s", tag, what, o.pv, sc, res.CloseIdx, res.CloseLabel, res.Pending, o.st)
+				c.FailSig("close-panic", vC14RrPanicSig(fmt.Sprint(o.pv)), "%s%s panicked: %v (%s; closed at event #%d %q, %d Refresh callers pending)\n%s", tag, what, o.pv, sc, res.CloseIdx, res.CloseLabel, res.Pending, o.st)
 				return bd.Since() - t0, nil, true
 			}
 			return bd.Since() - t0, o.err, false
@@ -353,7 +353,9 @@ func vC14RrRunInBubble(t *testing.T, c *vh.Case, sc vC14RrScn, target int) *vC14
 	time.Sleep(2 * time.Minute)
 	synctest.Wait()
 	cB := vc14.Owned()
-	c.Check(len(cB) == 0, "no-goroutine-after-2min", "%sgoroutines of the manager 2 virtual minutes after Close: %v\n%s", tag, vc14.Summary(cB), vc14.Dump(cB, 4))
+	if !c.Check(len(cB) == 0, "no-goroutine-after-2min", "%sgoroutines of the manager 2 virtual minutes after Close: %v\n%s", tag, vc14.Summary(cB), vc14.Dump(cB, 4)) {
+		c.ExitNow() // cannot be unwound
+	}
 	rt.Close()
 	h.Close()
 	res.Events = evs
@@ -409,7 +411,7 @@ func TestVerif_C14_rtrefresh(t *testing.T) {
 func TestVerif_C14_rtrefresh_par(t *testing.T) {
 	vh.Run(t, vh.Spec{Prop: "C14", Unit: "rtrefresh_par", Quick: 10, Thorough: 300, CostMs: 400, WallS: 300,
 		Rule: "real time, no bubble: per case 40 managers (instant query / ping functions, empty or 3-peer table), 2-6 goroutines calling Refresh(force) in a tight loop (yielding) while Close runs at a PRNG spin count; verdict = panic recovered from Close / Refresh, unanswered channel (logical: the receive is attempted after Close returned and everything the manager started has exited), census after Close; wall clock only bounds the harness (watchdog = inconclusive); non-trivial = >= 1 Refresh call overlapped Close; distinct by (spinners, peers)",
-		Clauses: []string{"close-no-panic", "no-goroutine-after-close", "refresh-answered"}},
+		Clauses: []string{"close-panic", "no-goroutine-after-close", "refresh-answered"}},
 		func(c *vh.Case) {
 			r := c.R
 			spinners := 2 + r.Intn(5)
@@ -504,9 +506,9 @@ func TestVerif_C14_rtrefresh_par(t *testing.T) {
 				c.Obs("refresh_calls", int(calls.Load()))
 				c.Obs("refresh_calls_after_close_began", int(during.Load()))
 				c.Obs("managers", 1)
-				c.Clause("close-no-panic")
+				c.Clause("close-panic")
 				if len(panics) > 0 {
-					c.FailSig("close-no-panic", "panic@rtrefresh.(*RtRefreshManager).Close", "round %d (%d spinners, %d table peers, %d Refresh calls, %d after Close began): Refresh concurrent with Close: %s", round, spinners, npeers, calls.Load(), during.Load(), trimTo(strings.Join(panics, "\n"), 4000))
+					c.FailSig("close-panic", vC14RrPanicSig(strings.Join(panics, " ")), "round %d (%d spinners, %d table peers, %d Refresh calls, %d after Close began): Refresh concurrent with Close: %s", round, spinners, npeers, calls.Load(), during.Load(), trimTo(strings.Join(panics, "\n"), 4000))
 				}
 				// everything the manager started has exited (request goroutines end once the context is cancelled)
 				var left []vh.Goro
@@ -538,6 +540,15 @@ func TestVerif_C14_rtrefresh_par(t *testing.T) {
 				c.Nontrivial(fmt.Sprintf("%d/%d", spinners, npeers))
 			}
 		})
+}
+
+// vC14RrPanicSig gives the WaitGroup-misuse panics of Refresh racing with Close (finding #17) one
+// stable signature, distinguishable from any other panic.
+func vC14RrPanicSig(msg string) string {
+	if strings.Contains(msg, "WaitGroup") {
+		return "rtrefresh-refresh-races-close"
+	}
+	return "panic@rtrefresh.(*RtRefreshManager).Close"
 }
 
 func trimTo(s string, n int) string {
